@@ -524,6 +524,9 @@ struct FileOpts {
     fullzip: bool,
     two_batches: bool,
     tiny_pages: bool,
+    /// directed tiled case: systematic reads (whole scan echoed, long range, strided takes, short
+    /// ranges spread over the file) instead of a random sample
+    sweep: bool,
 }
 
 async fn run_file_inner(col: &Col, var: Variant, fo: &FileOpts, seed: u64, id: u64) -> Result<Vec<Value>, String> {
@@ -601,6 +604,21 @@ async fn run_file_inner(col: &Col, var: Variant, fo: &FileOpts, seed: u64, id: u
                 reads.push(("take", rows));
             }
         }
+    } else if fo.sweep {
+        // a long range that crosses several chunk boundaries
+        reads.push(("range", (total / 30..(2 * total) / 3).collect()));
+        // strided takes: every chunk gets many rows, at and after its boundary
+        let stride = std::cmp::max(1, total / 400);
+        for phase in 0..2 {
+            reads.push(("take", (0..total).filter(|r| r % stride == (phase * (stride / 2 + 1)) % stride).collect()));
+        }
+        // short ranges spread over the file (seed moves them)
+        let shift = (seed as usize * 7) % 13;
+        for k in 1..60 {
+            let a = std::cmp::min(total - 1, k * total / 61 + shift);
+            let b = std::cmp::min(total, a + 1 + k % 4);
+            reads.push(("range", (a..b).collect()));
+        }
     } else {
         let mut h = id.wrapping_mul(0x9E37_79B9_7F4A_7C15) ^ seed.wrapping_mul(0xD1B5_4A32_D192_ED03);
         let mut next = |m: usize| {
@@ -656,7 +674,7 @@ async fn run_file_inner(col: &Col, var: Variant, fo: &FileOpts, seed: u64, id: u
             }
         };
         // keep tiled full scans small in the trace: only the rows of a few copies
-        let (rows, got) = if kind == "full" && total > 6 && error.is_empty() && got.len() == total {
+        let (rows, got) = if kind == "full" && total > 6 && !fo.sweep && error.is_empty() && got.len() == total {
             let per = rows_per(rows.len(), fo.reps);
             let stride = total / 24 + 1;
             let keep: Vec<usize> = (0..total)
@@ -675,7 +693,7 @@ fn rows_per(total: usize, reps: usize) -> usize {
     std::cmp::max(1, total / std::cmp::max(1, reps))
 }
 
-fn run_file(rt: &tokio::runtime::Runtime, scn: &Value, id: u64, var: Variant, seed: u64, tiled: bool, force: &[Option<bool>; 3]) -> Option<Value> {
+fn run_file(rt: &tokio::runtime::Runtime, scn: &Value, id: u64, var: Variant, seed: u64, tiled: bool, sweep: bool, force: &[Option<bool>; 3]) -> Option<Value> {
     let parts: Vec<Col> = scn["parts"].as_array().unwrap().iter().map(Col::parse).collect();
     let col = parts[0].clone();
     if col.kinds.iter().any(|k| k == "F") {
@@ -684,10 +702,11 @@ fn run_file(rt: &tokio::runtime::Runtime, scn: &Value, id: u64, var: Variant, se
     let h = id.wrapping_mul(0xA24B_AED4_963E_E407).wrapping_add(seed.wrapping_mul(0x9FB2_1C65_1E98_DF25));
     let leaf = std::cmp::max(1, col.leaf_slots());
     let fo = FileOpts {
-        reps: if tiled { std::cmp::max(2, 9000 / leaf + 1) } else { 1 },
+        reps: if sweep { 24000 / leaf + 1 } else if tiled { std::cmp::max(2, 9000 / leaf + 1) } else { 1 },
         fullzip: force[0].unwrap_or((h >> 11) & 1 == 1),
         two_batches: force[1].unwrap_or((h >> 19) & 1 == 1),
         tiny_pages: force[2].unwrap_or((h >> 29) & 1 == 1),
+        sweep,
     };
     let res = {
         let col2 = col.clone();
@@ -728,6 +747,7 @@ fn main() {
         .unwrap();
     let fb = |k: &str| args.get(k).map(|v| v == "1");
     let force = [fb("fullzip"), fb("two-batches"), fb("tiny-pages")];
+    let sweep = args.get("sweep").map(|v| v == "1").unwrap_or(false);
     let text = std::fs::read_to_string(&input).unwrap();
     let mut tw = TraceWriter::create(&out);
     for (i, line) in text.lines().enumerate() {
@@ -748,7 +768,7 @@ fn main() {
                 if scn["how"].as_str() != Some("one") {
                     continue;
                 }
-                if let Some(ev) = run_file(&rt, &scn, id, var, seed, mode == "tiled", &force) {
+                if let Some(ev) = run_file(&rt, &scn, id, var, seed, mode == "tiled", sweep, &force) {
                     tw.emit(ev);
                 }
             }
